@@ -22,7 +22,7 @@ NET_SAN := -fsanitize=address,bounds,integer-divide-by-zero -fno-sanitize-recove
 NET_REPO_CFLAGS := $(REPO_CFLAGS_COMMON) -O1 -DNDEBUG -fno-inline $(NET_SAN) $(COV) -I$(EX)
 NETB := $(B)/net
 NET_LIB_OBJS := $(patsubst $(REPO)/src/%.c,$(NETB)/lib/%.o,$(LIB_SRCS))
-NET_WRAPS := socket bind ioctl setsockopt close recv sendto read write poll clock_gettime clock_nanosleep sleep timerfd_create timerfd_settime rand exit malloc calloc realloc free getenv secure_getenv isatty connect sigaction signal alarm
+NET_WRAPS := socket bind ioctl setsockopt close recv sendto read write poll clock_gettime clock_nanosleep sleep timerfd_create timerfd_settime rand exit malloc calloc realloc free getenv secure_getenv isatty connect sigaction signal alarm setlocale
 NET_WRAPFLAGS := $(foreach w,$(NET_WRAPS),-Wl,--wrap=$(w))
 
 # example program -> main symbol
